@@ -166,6 +166,18 @@ macro_rules! bounded_writers {
                 }
             }
         }
+        // cookie_factory::gen reports the position it reached: it is the number of bytes written
+        {
+            let mut buf = vec![0xa5u8; n + 8];
+            if let Ok((rest, pos)) = cookie_factory::gen($gen, &mut buf[..]) {
+                let written = n + 8 - rest.len();
+                if pos as usize != written || written != n {
+                    $out.push(format!("{}: gen() reports position {} after writing {} bytes (the value serializes to {})", $label, pos, written, n));
+                }
+            } else {
+                $out.push(format!("{}: gen() fails into a buffer of {} bytes", $label, n + 8));
+            }
+        }
         for k in [1usize, 3] {
             if let Ok(t) = gen_simple($gen, Trickle(Vec::new(), k)) {
                 if t.0 != full {
